@@ -65,6 +65,11 @@ def plan(tier, seed):
                      'vars': [['v0', 'val', 0], ['v1', 'val', 1]], 'bools': second, 'compiled_after': first,
                      'label': 'cached-after-%s/%s' % (first if isinstance(first, str) else 'explicit',
                                                      second if isinstance(second, str) else 'explicit')})
+    # a file template re-cooked from the document after it had served a document of the other kind
+    for first, second in (('xml', 'html'), ('html', 'none_xml')):
+        jobs.append({'static': STATICS[4], 'entries': [['checked', 'v0'], ['disabled', 'v1']],
+                     'vars': [['v0', 'val', 0], ['v1', 'val', 1]], 'bools': second, 'reloaded_after': first,
+                     'label': 'reloaded-after-%s/%s' % (first, second)})
     base = {'static': STATICS[1], 'entries': [['CLASS', 'v0']], 'vars': [['v0', 'val', 0]], 'bools': 'html'}
     fam = dict(name='attribute_rendering', module=H, fn='H', jobs=jobs, timeout=300 if quick else 900, batch=4,
                vacuity=2, program_key='label',
@@ -86,7 +91,7 @@ def plan(tier, seed):
         bounds=('%d programs: %d static attribute lists (0-3 attributes, mixed case and quoting incl. unquoted, entities in the text) '
                 'x %d tal:attributes lists (named, other-case names, new names, the same name twice in other case among other names, boolean names, attribute dictionary '
                 'first/last with symbolic key presence) x boolean configurations {HTML default, XML/none, explicit '
-                'empty set, explicit set}, four of them compiled after the same source under another configuration through one on-disk module cache; every dynamic value ranges over [None, default, "", 0, False, True, hostile '
+                'empty set, explicit set}, four of them compiled after the same source under another configuration through one on-disk module cache, two as file templates re-cooked after having served a document of the other kind (XML declaration or not); every dynamic value ranges over [None, default, "", 0, False, True, hostile '
                 'str]; what a \';\'-separated argument splits into (tal.split_parts: \';;\' is a literal semicolon, single ones separate, runs of any length) on 5 shapes with 3-4 symbolic code points. Outside: ${} inside static attribute text (C06), more than 3 static attributes, ";;" escapes '
                 '(C11 covers split_parts), the output position of names decided by a dictionary (known divergence, '
                 'not asserted).' % (len(jobs), len(STATICS), len(entry_sets()))),
